@@ -103,6 +103,8 @@ func profilesFor(id string) []*Profile {
 		q := baseProfile("mixed")
 		q.Hostile = 10
 		withW(q, "dfswap", 4, "restores", 8, "restore", 6)
+		p.Obs.Reflog = true // reset positions are resolved through the reflog view (C08_Refuse is also a C03 clause)
+		q.Obs.Reflog = true
 		return []*Profile{p, q}
 	case "C05":
 		var out []*Profile
@@ -168,8 +170,8 @@ func profilesFor(id string) []*Profile {
 		p.Obs = ObsSpec{Status: true, Ls: true}
 		r := baseProfile("dirs")
 		r.Paths = append(append([]string{}, famExt...), famSib...)
-		withW(r, "write", 18, "rewrite", 4, "touch", 3, "remove", 8, "rmdir", 9, "add", 16, "commit", 6, "updateref", 0, "config", 0)
-		r.Obs = ObsSpec{Status: true, Ls: true}
+		withW(r, "write", 18, "rewrite", 4, "touch", 3, "remove", 8, "rmdir", 9, "add", 16, "commit", 6, "reset", 7, "updateref", 0, "config", 0)
+		r.Obs = ObsSpec{Status: true, Ls: true, Reflog: true} // reset positions are resolved through the reflog view (C17_MetaSafeReset)
 		q := baseProfile("noignore")
 		q.Paths = append(append([]string{}, famIgn...), famOdd...)
 		withW(q, "write", 18, "rewrite", 6, "touch", 6, "remove", 8, "rmdir", 5, "add", 14)
